@@ -28,7 +28,7 @@ MANIFEST = dict(
          "constants, fixed keys, composition order and de-dup kind of both facades regenerated from the source; the hand-transcribed "
          "comprehensions by differential correspondence against the REAL GeckoAsyncFacade and GeckoFacade built on stub spas (assignment "
          "written into the block through the real accessors)."
-         ' Since session 3: rescans_are_idempotent (the facade OBJECT scanned any number of times holds the inventory of one scan; whether each list is rebuilt or grown is generated from both scan methods), checked by re-connecting the real blocking facade. A new output wiring reported on a live connection after a facade has read the outputs; the oracle decodes labels from the raw block. The first value past an output\'s label list (byte = number of labels) and the next one, on every byte-wide output, alone and beside an ordinary wiring. Round 14: the inventory of spas of different pack families connected one after the other in one process (inYJ 62/59, crafted inYT 62/62, inYJ again).',
+         ' Since session 3: rescans_are_idempotent (the facade OBJECT scanned any number of times holds the inventory of one scan; whether each list is rebuilt or grown is generated from both scan methods), checked by re-connecting the real blocking facade. A new output wiring reported on a live connection after a facade has read the outputs; the oracle decodes labels from the raw block. The first value past an output\'s label list (byte = number of labels) and the next one, on every byte-wide output, alone and beside an ordinary wiring. Round 14: the inventory of spas of different pack families connected one after the other in one process (inYJ 62/59, crafted inYT 62/62, inYJ again). Round 15: two BLOCKING clients per process, spas of different families and of ONE model set differently, sequential and with overlapping start-up; each inventory is its own spa\'s.',
     note="Trusted: Lean kernel; harness/gen_c12.py (AST evaluation of const.py, syntactic facts); the correspondence harness. 'Wired to an "
          "output' is the label-prefix relation the library itself uses (no other definition exists in the repository). str.upper() is modelled "
          "as ASCII upper: every upper-cased key of the shipped tables is ASCII (checked by the kernel).",
@@ -464,6 +464,29 @@ def cause_of(err):
     return et + (":" + m.group(1) if m else "")
 
 
+def check_blocking_clients(ctx, only=None):
+    """two BLOCKING clients in one process (real start_connect handshakes, stepped; one after the other and with overlapping start-up),
+    their spas wired differently: what each client's output items show - the input of its inventory - is its OWN spa's wiring"""
+    import bsessions
+    from common import REPO
+    s1 = str(REPO / "tests" / "snapshots" / "inYT-Pump1Hi-2020-12-13 11_19_35.snapshot")
+    s2 = str(REPO / "tests" / "snapshots" / "inYT-waterfall on-2020-10-23 18_01_30.snapshot")
+    for overlapping, same_model in ((False, False), (True, False), (False, True), (True, True)):
+        if only is not None and only != [overlapping, same_model]:
+            continue
+        if same_model:         # two spas of ONE model (same pack, same table versions), set differently
+            res, _a, _b = bsessions.two_clients(s1, s1, overlapping, mutate_b=bsessions.differently_set)
+        else:
+            res, _a, _b = bsessions.two_clients(s1, s2, overlapping)
+        ctx.count("evaluations")
+        name = ("overlapping" if overlapping else "sequential") + (":same-model" if same_model else "")
+        ctx.hist("blocking_clients", name)
+        for what, detail in bsessions.judge(res):
+            ctx.violation(f"blocking-clients:{name}:{what}", {"kind": "blocking-clients", "case": [overlapping, same_model]},
+                          "each client's items (its outputs among them) read its own spa's block through the tables that spa reported", detail)
+            break
+
+
 def check_sessions(ctx):
     """the inventory of a spa connected LATER in the same process, through the real client path: first a spa of one pack family, then
     one of another family whose tables carry a version number the first family also has (inYJ config 62 / log 59, then inYT config
@@ -686,6 +709,10 @@ def run(ctx):
         check_sessions(ctx)
     except Exception as e:  # noqa
         ctx.obligation_broken("harness:sessions", f"{type(e).__name__}: {e}")
+    try:
+        check_blocking_clients(ctx)
+    except Exception as e:  # noqa
+        ctx.obligation_broken("harness:blocking-clients", f"{type(e).__name__}: {e}")
     ctx.cov["distinct_nontrivial"] = len(nontrivial)
     ctx.cov["blocks"] = nblk
     ctx.cov["rule"] = ("per cfg table: zero block, all-'NA', packings of every label of every output (every device prefix), one device on several "
@@ -722,6 +749,11 @@ class _Collect:
 
 
 def replay(inp):
+    if inp.get("kind") == "blocking-clients":
+        from common import Ctx
+        c = Ctx("C12", "quick", 0)
+        check_blocking_clients(c, only=inp["case"])
+        return bool(c.violations), c.violations[0]["observed"] if c.violations else "both clients show their own spa"
     if inp.get("kind") == "sessions":
         from common import Ctx
         c = Ctx("C12", "quick", 0)
